@@ -293,6 +293,24 @@ func c13Case(c *Ctx) error {
 			continue
 		}
 		fn, data := reqOf(o)
+		if !o.Unlock && rng.Intn(5) == 0 {
+			// a lock request WITHOUT an id, sent as a task: the id then defaults to the transaction id, which on this route
+			// is the task id the submitter chose - here the id the request would otherwise have carried (often one in use)
+			req := &fpb.BalanceLockRequest{Address: accs[o.Addr].AddrString(), Token: c13Toks[o.Tok], Amount: o.Amt, Reason: "r"}
+			raw, _ := json.Marshal(req)
+			nonce++
+			tasks := []*fpb.Task{{Id: "L" + strconv.Itoa(o.ID), Method: fn, Args: w.SignedArgs("tt", fn, accs[o.Sender], strconv.FormatUint(nonce, 10), string(raw))}}
+			out := w.ExecTasks("tt", w.Robot.Creator, tasks)
+			msg := "TASKS FAILED: " + out.Res.Message
+			if out.Resp != nil && len(out.Resp.GetTxResponses()) == 1 {
+				msg = out.Resp.GetTxResponses()[0].GetError().GetError()
+			}
+			c.Count("lock_with_default_id_as_task")
+			if err := record(o, msg, obsNow()); err != nil {
+				return err
+			}
+			continue
+		}
 		msg := tokenRun(w, "tt", accs[o.Sender], &nonce, fn, data)
 		if err := record(o, msg, obsNow()); err != nil {
 			return err
@@ -308,7 +326,7 @@ func c13Case(c *Ctx) error {
 
 func genC13(c *Ctx) error {
 	c.ShardSize = 12
-	c.Notes["rule"] = "each case: fresh chaincode, 3 addresses funded with token and allowed balances; 12-30 signed lock/unlock requests by the admin (sometimes by others) through real batches: new ids, duplicate ids, unknown ids, amounts 0, cur-1, cur, cur+1, balance, balance+1, negative and non-numeric, amounts spelled with leading zeros or a plus sign, wrong family, missing token; two unlocks of one lock (a part, then the rest or one more / less) in ONE executeTasks request, the state between them taken from a run of the list cut after the first task on a copy of the ledger; 1 in 8 histories also unlock naming a foreign address (outside the property's quantifier; only correspondence is checked). Observed after every request: error class, all balances, all lock records. Non-trivial: >= 3 successful requests."
+	c.Notes["rule"] = "each case: fresh chaincode, 3 addresses funded with token and allowed balances; 12-30 signed lock/unlock requests by the admin (sometimes by others) through real batches: new ids, duplicate ids, unknown ids, amounts 0, cur-1, cur, cur+1, balance, balance+1, negative and non-numeric, amounts spelled with leading zeros or a plus sign, wrong family, missing token; lock requests without an id sent as tasks whose task id (the default lock id on that route) is a chosen, often used, id; two unlocks of one lock (a part, then the rest or one more / less) in ONE executeTasks request, the state between them taken from a run of the list cut after the first task on a copy of the ledger; 1 in 8 histories also unlock naming a foreign address (outside the property's quantifier; only correspondence is checked). Observed after every request: error class, all balances, all lock records. Non-trivial: >= 3 successful requests."
 	n := c.N(150, 3000)
 	for i := 0; i < n; i++ {
 		if err := c13Case(c); err != nil {
